@@ -1,5 +1,77 @@
 """XorShiftRng::from_rng / try_from_rng redraw loops (C08.R8, C09.R6/R7)."""
+from .. import terms as T, alg
+from ..harness import (Crate, State, Ref, ArrV, Struct, EnumV, OpaqueV, flat_leaves, Anchor, Unsupported, SymbolicLoop, Diverged, symbolic_args)
+from ..ref import xoshiro as REF
+from .linear import SEEDABLE
 
 
-def check_redraw_loops(chk, crate, g):
-    chk.ob("R8", "XorShiftRng::from_rng|redraw loop", True, "pending loop summariser", nontrivial=False)
+def analyse_redraw(crate, g, meth):
+    key = g.method(SEEDABLE, meth)
+    body = crate.body(key)
+    ev = crate.evaluator()
+    ev.summarise_loops = True
+    st = State()
+    args, objs = symbolic_args(ev, st, body)
+    ret = ev.call_body(st, key, args)
+    recs = [r for r in ev.loops_log if r.body == key]
+    return key, body, ev, st, ret, recs
+
+
+def fill_calls(calls):
+    return [c for c in calls if c[1].split("::")[-1] in ("fill_bytes", "try_fill_bytes")]
+
+
+def check_redraw_loops(chk, crate, g, rule="R8"):
+    for meth in ("from_rng", "try_from_rng"):
+        inst = "XorShiftRng::%s" % meth
+        try:
+            key, body, ev, st, ret, recs = analyse_redraw(crate, g, meth)
+        except (Unsupported, SymbolicLoop, Diverged, Anchor) as e:
+            chk.ob(rule, inst + "|redraw loop", False, "not established: %s" % e)
+            continue
+        chk.body(key)
+        where = body["span"][0]
+        okl = len(recs) == 1
+        chk.ob(rule, inst + "|exactly one loop", okl, "%d loops" % len(recs), where=where, nontrivial=False)
+        if not okl:
+            continue
+        rec = recs[0]
+        fc = fill_calls(rec.calls)
+        okf = len(fc) == 1
+        chk.ob(rule, inst + "|one fill of the source per iteration", okf, "fill calls per iteration: %s" % [c[1].split("::")[-1] for c in rec.calls], where=where)
+        if not okf:
+            continue
+        call = fc[0][4]
+        # destination: the whole 16-byte block
+        eff = [T.select(T.atom("effarr", 8, (call,), (1, 16)), T.const(i, 64), 8) for i in range(16)]
+        allz = T.and1([T.eqz(b) for b in eff])
+        normal_exits = [(c, h, a) for c, h, a in rec.exits]
+        if meth == "from_rng":
+            oke = len(normal_exits) == 1 and normal_exits[0][0] is T.bnot(allz)
+            detail = "exit condition %s" % (T.show(normal_exits[0][0], 3) if normal_exits else None)
+        else:
+            # exits: source error (return Err) and block not all zero
+            disc = T.atom("res", 64, (call,), "ret.discr")
+            okres = T.eqz(disc)
+            conds = {c for c, h, a in normal_exits}
+            errc = T.eq(disc, T.const(1, 64))
+            oke = len(normal_exits) == 2 and T.and1([okres, T.bnot(allz)]) in conds and (T.bnot(okres) in conds or errc in conds)
+            detail = "exit conditions %s" % [T.show(c, 3) for c in conds]
+        chk.ob(rule, inst + "|the loop is left only with a block that is not all zero%s" % (" (or the source's error)" if meth != "from_rng" else ""),
+               oke, detail, where=where, sample={"loop": inst, "exit": detail[:200]})
+        # state = LE decode of that block
+        val = ret
+        if meth == "try_from_rng":
+            okv = isinstance(ret, EnumV) and 0 in ret.payloads and 1 in ret.payloads
+            chk.ob(rule, inst + "|returns Result", okv, "", nontrivial=False)
+            if not okv:
+                continue
+            val = ret.payloads[0][0]
+            errp = ret.payloads[1][0]
+            oker = isinstance(errp, OpaqueV) and ("#%d" % call.id) in str(errp.token)
+            chk.ob(rule, inst + "|on failure returns the source's own error and no generator", oker, "error payload %r" % (errp,), where=where)
+        words = flat_leaves(val)
+        exp = REF.le_words(eff, 32)
+        okw = len(words) == 4 and all(a is b for a, b in zip(words, exp))
+        chk.ob(rule, inst + "|state is the little-endian decode of the accepted block (as from_seed)", okw,
+               "state %s" % [T.show(w, 2) if isinstance(w, T.T) else w for w in words[:2]], where=where)
